@@ -84,6 +84,7 @@ func (c *caseRun) runBatchGen(sp batchSpec, wg *sync.WaitGroup) {
 			if err == nil {
 				c.acked[myC] = true
 				c.recordLocked(fmt.Sprintf("ackobs %d", myC))
+				c.relNotObs--
 			} else {
 				c.recordLocked(fmt.Sprintf("nackobs %d", myC))
 			}
@@ -188,8 +189,18 @@ func (c *caseRun) crashReopen(variant string, sp batchSpec, st *hlib.Stats) {
 		wg.Wait()
 		return
 	}
-	// let the other goroutines of the writer finish what they are in the middle of recording
+	// let the other goroutines of the writer finish what they are in the middle of recording; in particular every
+	// acknowledgement the persister has released is observed by its caller before the process "dies"
 	time.Sleep(2 * time.Millisecond)
+	for i := 0; i < 3000; i++ {
+		c.mu.Lock()
+		n := c.relNotObs
+		c.mu.Unlock()
+		if n <= 0 {
+			break
+		}
+		time.Sleep(100 * time.Microsecond)
+	}
 
 	// ---- the crash, atomically with respect to the record
 	c.mu.Lock()
@@ -237,6 +248,7 @@ func (c *caseRun) crashReopen(variant string, sp batchSpec, st *hlib.Stats) {
 	c.curSpec, c.curIntro = nil, nil
 	c.introSem = make(chan struct{}, 1)
 	c.closing, c.opening = false, false
+	c.relNotObs = 0
 	c.forceImage = true
 	c.recordLocked("crash") // listed (and imaged) as the crash image now in c.dir
 	c.mu.Unlock()
